@@ -535,6 +535,50 @@ def check(ctx):
             o.witness((s_.ctx, kind))
     o.require(n_sites >= 6, f'only {n_sites} schedule_event sites with an action found')
     o.stats = {'attributes_read_from_actions': sorted({(f, a) for f, a, _ in reads})}
+    # ---- C15.8 cancelled events in the trace ------------------------------------------------------------------------------------
+    o8 = Ob('C15.8', 'K2', 'an event is traced before it is executed, so a cancelled event -- popped, never run -- is listed too: its entry says so (a status '
+                           'read from the cancelled flag), or cancelled events are not recorded; otherwise the trace lists events that never happened')
+    obs.append(o8)
+    from ..norm import simple_return, single_defs as _sd8
+    from ..cfg import _unique_methods
+    n_rec = 0
+    for s_ in inv.attr_uses(P, '_event_trace'):
+        if s_.extra['role'][0] != 'subscript-store' or s_.cls is not Env or not isinstance(s_.stmt, ast.Assign):
+            continue
+        n_rec += 1
+        o8.count()
+        v = s_.stmt.value
+        d8 = _sd8(s_.func)
+        if isinstance(v, ast.Name) and v.id in d8:
+            v = d8[v.id]
+        rec = v if isinstance(v, ast.Dict) else None
+        if rec is None and isinstance(v, ast.Call) and isinstance(v.func, ast.Attribute):
+            # built by a helper: a (static) method of the environment, or a method only the event class defines
+            fd = None
+            if ast.unparse(v.func.value) in ('Environment', 'self', 'type(self)') and v.func.attr in Env.methods:
+                fd = Env.methods[v.func.attr]
+            else:
+                um = _unique_methods(P).get(v.func.attr)
+                fd = um[1] if um else None
+            r_ = simple_return(fd) if fd is not None else None
+            rec = r_ if isinstance(r_, ast.Dict) else None
+        if rec is None:
+            o8.notes.append(f'{s_.ctx}: the trace record is not a dict display the rule can read (C15.4 reports what it is)')
+            continue
+        keys = {k.value: val for k, val in zip(rec.keys, rec.values) if isinstance(k, ast.Constant)}
+        marks = [val for val in keys.values() if any(isinstance(x, ast.Attribute) and x.attr == 'cancelled' for x in ast.walk(val))]
+        par = s_.mod.parents.get(s_.stmt)
+        guarded = False
+        while par is not None and not isinstance(par, ast.FunctionDef):
+            if isinstance(par, ast.If) and any(isinstance(x, ast.Attribute) and x.attr == 'cancelled' for x in ast.walk(par.test)):
+                guarded = True
+            par = s_.mod.parents.get(par)
+        if marks or guarded:
+            o8.witness(('marked' if marks else 'not-recorded', s_.ctx))
+        else:
+            o8.fail(P, s_.ctx, s_.stmt, 'the trace entry of an event does not depend on whether the event was cancelled (the status is read before execute() sets it): '
+                    'a cancelled event -- e.g. the end-of-cycle timer of a machine that failed -- is listed exactly like an executed one', file=s_.mod.path, line=s_.line)
+    o8.require(n_rec >= 1, 'no store into the event trace found')
     obs.append(ctx.shared('c16', 'C16.6', 'C15.6', 'a record carries the value of the part at that moment: for a batch that is the sum over its parts computed when read '
                           '(a cached sum shows the value from before processing)'))
     obs.append(ctx.shared('c13', 'C13.8', 'C15.7', 'a failure record names the part that was lost: the test that decides between the part\'s id and "nothing lost" is a truth test '
